@@ -209,7 +209,7 @@ impl<R: Round, const B: Word> FBig<R, B> {
         let new_context = Context::new(precision);
 
         // shrink if necessary
-        let repr = if self.context.precision > precision {
+        let repr = if !self.context.is_limited() || self.context.precision > precision {
             // it also handles unlimited precision
             new_context.repr_round(self.repr)
         } else {
